@@ -43,7 +43,9 @@ struct Act {
     payload: u32,
 }
 
-struct C13;
+struct C13 {
+    thorough: bool,
+}
 
 const PAYLOADS: [u32; 11] = [0, 1, 31, 32, 33, 135, 136, 137, 272, 4096, 40960];
 
@@ -139,6 +141,13 @@ impl Scenario for C13 {
         for who in whos {
             for chain in 0..4u8 {
                 for addr in 0..3u8 {
+                    if self.thorough && chain == 1 && addr == 0 {
+                        // every payload length around all Keccak-256 block boundaries up to 3 blocks, plus large ones
+                        for payload in (0..=410u32).chain([4096, 16384, 16385, 40960, 65536]) {
+                            v.push(Act { who, chain, addr, payload });
+                        }
+                        continue;
+                    }
                     for payload in PAYLOADS {
                         v.push(Act { who, chain, addr, payload });
                     }
@@ -246,7 +255,7 @@ fn main() {
     main_for(|tier| {
         let mut o = Opts::new(tier, 1);
         o.level = "exploration";
-        o.rule = "exhaustive grid from 3 gateway states (fresh, with approvals, after a rotation): sender/authorisation in {principal signing; another principal signing; nobody; principal signing a different call; both signing; contract naming itself as caller; contract naming another address; account-type address authorised / unauthorised; unauthorised direct calls naming the gateway itself, another contract, the gateway's owner} x destination chain {empty, ASCII, 300 chars, multi-byte} x destination address {hex, empty, non-ASCII} x payload length {0,1,31,32,33,135,136,137,272,4096,40960} (Keccak rate boundaries); one case is non-trivial and distinct when its (base state, sender mode, strings, payload) tuple differs".into();
-        (C13, o)
+        o.rule = "exhaustive grid from 3 gateway states (fresh, with approvals, after a rotation): sender/authorisation in {principal signing; another principal signing; nobody; principal signing a different call; both signing; contract naming itself as caller; contract naming another address; account-type address authorised / unauthorised; unauthorised direct calls naming the gateway itself, another contract, the gateway's owner} x destination chain {empty, ASCII, 300 chars, multi-byte} x destination address {hex, empty, non-ASCII} x payload length {0,1,31,32,33,135,136,137,272,4096,40960} (Keccak rate boundaries; thorough: every length 0..=410 and 16 KiB / 16 KiB+1 / 64 KiB for the ASCII destination); one case is non-trivial and distinct when its (base state, sender mode, strings, payload) tuple differs".into();
+        (C13 { thorough: tier == "thorough" }, o)
     });
 }
